@@ -11,7 +11,10 @@ import (
 // Program is one complete logging program.
 type Program struct {
 	Settings []int // indices into Settings()
-	Steps    []Step
+	// Sibling, if set, is applied to the logger reached BEFORE the last step of Steps, after that last
+	// step was applied (a second child of the same parent, created before the first child logs).
+	Sibling *Step
+	Steps   []Step
 	Entry    Entry
 	Fields   []Field
 	Final    Final
@@ -22,6 +25,9 @@ func (p Program) String() string {
 	fmt.Fprintf(&sb, "New(w)")
 	for _, s := range p.Steps {
 		fmt.Fprintf(&sb, ".%s", s)
+	}
+	if p.Sibling != nil {
+		fmt.Fprintf(&sb, " [sibling of the last step: %s]", *p.Sibling)
 	}
 	fmt.Fprintf(&sb, " ; %s", p.Entry.Kind)
 	if p.Entry.Kind == "WithLevel" {
@@ -83,8 +89,17 @@ func Run(p Program) (out Output) {
 		}()
 		lg := zerolog.New(w0)
 		m := RefLogger{Level: zerolog.TraceLevel}
-		for _, s := range p.Steps {
+		for i, s := range p.Steps {
+			parent, pm := lg, m
 			lg, m = ApplyStep(w, lg, m, s)
+			if p.Sibling != nil && i == len(p.Steps)-1 {
+				sib, sm := ApplyStep(w, parent, pm, *p.Sibling)
+				// the sibling logs first: whatever it shares with the first child gets written now
+				sib.Log().Msg("sibling")
+				_ = sm
+				out.Lines, out.Lines1 = nil, nil
+				out.HookLog.Calls, out.HookLog.Ctxs = nil, nil
+			}
 		}
 		e := p.Entry.Start(&lg)
 		for _, f := range p.Fields {
